@@ -9,6 +9,7 @@ operation, honouring @skip/@include under the given variables; a flat operation 
 """
 import itertools
 
+from vf import engine_p
 from vf.report import MachineryDefect, Run
 
 WRAPS = ("none", "inline", "typed", "spread")
@@ -155,5 +156,6 @@ def check(tier, seed):
     run.sample({"document": build_doc(2, ("inline", "none", "spread")), "reference_depth": 2})
     run.trusted("reference depth function in vf/props/c19.py (from the property statement and the class docstring)")
     run.assume("no deductive obligation: __call__ is a generator pipeline over selected_fields (outside the VC generator's subset); bounded contract only")
+    engine_p.run(run, 'C19')
     return run.finish("other", "bounded stand-in: verdict == reference depth function on every enumerated (document, limit, filter, variables)",
                       checker_cmd="./check C19 --tier %s" % tier)
